@@ -713,8 +713,13 @@ class Interp:
                 parts = [ast.copy_location(ast.Subscript(
                     value=value, slice=ast.Constant(value=index), ctx=ast.Load()), value)
                     for index in range(len(target.elts))]
-            for elt, part in zip(target.elts, parts):
+            returned = self._helper_returned(value, st)
+            for position, (elt, part) in enumerate(zip(target.elts, parts)):
                 self._store(elt, part, st, fr, stmt, aug)
+                if isinstance(returned, ast.Tuple) and \
+                        len(returned.elts) == len(target.elts) and \
+                        isinstance(elt, ast.Name) and aug is None:
+                    self._constant_flag(st, elt.id, returned.elts[position])
             return
         if isinstance(target, ast.Starred):
             return self._store(target.value, None, st, fr, stmt, aug)
@@ -733,12 +738,31 @@ class Interp:
             # a comprehension result is empty exactly when no element was produced
             st.facts[('truth', target.id)] = bool(
                 st.facts.pop(('comp-elements', str(id(value))), False))
-        if isinstance(target, ast.Name) and aug is None and isinstance(value, ast.Constant) \
-                and (isinstance(value.value, bool) or value.value is None):
+        if isinstance(target, ast.Name) and aug is None:
+            self._constant_flag(st, target.id, value)
+            if isinstance(value, (ast.Call, ast.Await)):
+                # `ok = self._helper()` where the helper, run in place, returned a constant
+                self._constant_flag(st, target.id, self._helper_returned(value, st))
+
+    @staticmethod
+    def _constant_flag(st: St, name: str, value):
+        if isinstance(value, ast.Constant) and (isinstance(value.value, bool)
+                                                or value.value is None):
             # a local flag: private to this frame, it keeps its value across suspensions
-            st.facts[('truth', target.id)] = bool(value.value)
-            st.facts[('isnone', target.id)] = value.value is None
-            st.facts[('constflag', target.id)] = True
+            st.facts[('truth', name)] = bool(value.value)
+            st.facts[('isnone', name)] = value.value is None
+            st.facts[('constflag', name)] = True
+
+    @staticmethod
+    def _helper_returned(value, st: St):
+        """the return expression of the helper that was just run in place for ``value``"""
+        if not isinstance(value, (ast.Call, ast.Await)) or not st.events:
+            return None
+        last = st.events[-1]
+        if last.kind == 'leave' and last.data.get('how') == 'helper' and \
+                last.node is value and last.data.get('outcome') == 'return':
+            return last.data.get('ret')
+        return None
 
     def _kill_store(self, st: St, target, fr=None):
         path = _dotted(target)
